@@ -80,6 +80,15 @@ type Scenario struct {
 	Ops   []string        `json:"ops"`
 	Fault *Fault          `json:"fault"`
 	Tree  json.RawMessage `json:"tree"` // model's prediction (conformance)
+	// RoundTrip: parse the rendering with the library's EML parser and render again (C10)
+	RoundTrip bool `json:"roundtrip"`
+}
+
+func clipS(s string, n int) string {
+	if len(s) > n {
+		return s[:n]
+	}
+	return s
 }
 
 var errProducer = errors.New("scripted producer failure")
@@ -438,6 +447,13 @@ func Build(p Prog, seed int64, failSlot int, failWhen string, tmpdir string) (*B
 				b.SetErr = append(b.SetErr, "toname")
 			} else {
 				b.HdrWant["To:name"] = v
+			}
+		case "cc":
+			if err := m.Cc("cc1@to.test", "Carbon Copy <cc2@to.test>"); err != nil {
+				b.SetErr = append(b.SetErr, "cc")
+			} else {
+				names["Cc"] = true
+				b.HdrWant["Cc:list"] = "cc1@to.test,Carbon Copy <cc2@to.test>"
 			}
 		case "mdnname":
 			if err := m.RequestMDNToFormat(v, "mdn@from.test"); err != nil {
@@ -819,6 +835,9 @@ func Analyse(r *rec.Recorder, out []byte, b *Built) {
 	}
 	// values of free-text fields of the top-level header section: unfold + RFC 2047 decode
 	for name, want := range b.HdrWant {
+		if strings.HasSuffix(name, ":list") {
+			continue
+		}
 		field, sub := name, ""
 		if i := strings.IndexByte(name, ':'); i >= 0 {
 			field, sub = name[:i], name[i+1:]
@@ -1063,8 +1082,11 @@ func (rn *Runner) Run() {
 			"accepted", out.Len(), "len", out.Len(), "id", id, "faulted", false, "text", clipErr(oerr, pan))
 	}
 	for i, o := range distinct { // every distinct output is read back
-		r.Emit("render", "id", i+1)
+		r.Emit("render", "id", i+1, "second", false)
 		Analyse(r, o, built)
+	}
+	if sc.RoundTrip && first != nil {
+		RoundTrip(r, first, built)
 	}
 
 	// render faults (C12): every offset of a failing sink / short writes / failing producers
